@@ -139,7 +139,7 @@ func isExpireAtField(v ssa.Value) bool {
 		return world.FieldName(x) == "ExpireAt"
 	case *ssa.Field:
 		st, ok := x.X.Type().Underlying().(*types.Struct)
-		return ok && st.Field(x.Field).Name() == "ExpireAt"
+		return ok && world.CanonField(st.Field(x.Field)) == "ExpireAt"
 	}
 	return false
 }
@@ -359,7 +359,7 @@ func (e *expiryCtx) testsIn(fn *ssa.Function) []expiryTest {
 		if iff == nil {
 			continue
 		}
-		p, d := e.polarity(iff.Cond, isExpireAtField, isNowValue, 0)
+		p, d := e.polarity(world.CondValue(iff), isExpireAtField, isNowValue, 0)
 		if p != 0 {
 			out = append(out, expiryTest{iff, p, d})
 		}
@@ -422,7 +422,7 @@ func (e *expiryCtx) edgeGen(fn *ssa.Function, deadlineOK func(ssa.Value) bool) w
 			return factAlive
 		}
 		// a zero deadline never expires: the "is zero" edge of a zero test on a deadline is ALIVE
-		if v, trueIsZero, ok := zeroTimeTest(iff.Cond); ok && derivesFrom(v, isExpireAtField, 0) && (deadlineOK == nil || deadlineOK(v)) {
+		if v, trueIsZero, ok := zeroTimeTest(world.CondValue(iff)); ok && derivesFrom(v, isExpireAtField, 0) && (deadlineOK == nil || deadlineOK(v)) {
 			if (si == 0) == trueIsZero {
 				return factAlive
 			}
@@ -453,7 +453,7 @@ func walkCFG(fn *ssa.Function, decide func(cond ssa.Value) int, visit func(ssa.I
 			}
 		}
 		if iff := world.IfOf(b); iff != nil {
-			switch decide(iff.Cond) {
+			switch decide(world.CondValue(iff)) {
 			case 0:
 				dfs(b.Succs[0])
 			case 1:
